@@ -343,9 +343,9 @@ PROPS["C06"] = {
     ],
     "harnesses": cli_keys("cli_term", SHOW_KEYS, tags=["C06"], timeout=1200, mem=5) + cli_keys("cli_term", ["show_down"], tags=["C06"], tier="thorough", timeout=1200, mem=5) + [
         H("cli_term::show_cli_write_quick", tags=["C06", "C13"], cfg=["vp_h0"], bounds="Cli::write(write_str(x)) from ANY editor state with a 2-byte line and any cursor (N=3), prompt `$ `: the sink receives exactly the expected transcript (part 2: term_redraw_lemma)", timeout=1800, mem=6),
-    ] + [H("cli_term::show_enter_" + c, tags=["C06", "C13"], cfg=["vp_h0"], tier=("both" if c in ("v0_silent", "v2_x", "v2_prompt") else "thorough"),
-           bounds="Enter from ANY editor state (N=3, history buffer of size 0), line length / handler behaviour `%s` (silent, writes x / x+LF / LF / x+LF+x, changes the prompt): the sink receives exactly the expected transcript (part 2: term_enter_lemma)" % c, timeout=2400, mem=8)
-         for c in ("v0_silent", "v1_silent", "v1_x", "v1_prompt", "v2_silent", "v2_x", "v2_xlf", "v2_lf", "v2_xlfx", "v2_prompt", "v3_silent", "v3_x", "v3_xlf", "v3_prompt")] + [
+    ] + [H("cli_term::show_enter_" + c, tags=["C06", "C13"], cfg=["vp_h0"], tier=("both" if c in ("v0_silent", "v2_x", "v2_x_and_prompt") else "thorough"),
+           bounds="Enter from ANY editor state (N=3, history buffer of size 0), line length / handler behaviour `%s` (silent, writes x / x+LF / LF / x+LF+x, changes the prompt, writes x and changes the prompt): the sink receives exactly the expected transcript (part 2: term_enter_lemma)" % c, timeout=2400, mem=8)
+         for c in ("v0_silent", "v1_silent", "v1_x", "v1_prompt", "v2_silent", "v2_x", "v2_xlf", "v2_lf", "v2_xlfx", "v2_prompt", "v2_x_and_prompt", "v3_silent", "v3_x", "v3_xlf", "v3_prompt")] + [
     ] + [H("cli_term::show_cli_write_v%d_p%d" % (v, pr), tags=["C06", "C13"], cfg=["vp_h0"], bounds="Cli::write(write_str of one of \"\", x, x+LF, LF, x+LF+x) from ANY editor state with a line of exactly %d bytes (N=3), prompt %s: the sink receives exactly the expected transcript (part 2: term_redraw_lemma)" % (v, ["empty", "", "e-acute> "][pr]), tier="thorough", timeout=2400, mem=8) for v in range(0, 4) for pr in (0, 2)] + [
         H("cli_term::term_enter_lemma", tags=["C06", "C13"], bounds="harness-side lemma: the byte transcript of Enter (any of 5 output texts, any prompt) fed to the terminal emulator from ANY Show state leaves the submitted line on its row, the output below it and a fresh row with the prompt", timeout=1800, mem=8),
         H("cli_term::term_redraw_lemma", tags=["C06", "C13"], bounds="harness-side lemma: the byte transcript of Cli::write, for ANY CliInv line/cursor/prompt and any of the 5 output texts, fed to the terminal emulator from ANY terminal state, displays prompt + line with the cursor at the editor's cursor", timeout=1800, mem=8),
